@@ -65,12 +65,22 @@ META = {
         "or delegates to docutils' validate_comma_separated_list, whose source is re-read as the oracle (strip + drop empties); and on their way into the result "
         "the items are not transformed by any str method other than stripping (a lower()/replace() in one entry point makes the docutils spelling differ from the same "
         "value given as YAML dict, conf.py value or front matter - normalisation belongs in the shared validator). "
+        "R11: an option a document may override is never read from the raw conf.py value (app.config / env.config myst_*, attribute, subscript or getattr) outside the function "
+        "that feeds the validating constructor, except for global_only options or as the fallback of a more specific lookup (.get default, `or`, else-arm). "
+        "R12: read_topmatter appends every front-matter line verbatim (only a strip of line-terminator characters is allowed) and its end-of-block test, evaluated "
+        "abstractly on ten constant probe lines, closes the block exactly where the markdown-it front_matter rule does (marker after 0-3 spaces, not after 4; sibling "
+        "source re-read for tShift / is_code_block). "
+        "R13: because Sphinx's i18n transform re-parses every msgstr under a ':<translated>' source without front matter (sibling re-read), MystParser.parse writes the merged "
+        "file-level config into the per-read store of the environment after the merge and starts from it, under a guard, for such sources. "
         "The per-field update is located by role (the function that calls validate_field, reached from merge_file_level directly or through one or two "
         "module-level helpers with parameters substituted), so splitting merge_file_level into helpers keeps every rule deciding."
     ),
     "not_decided": (
         "which markdown-it parser object a document is rendered with (a cross-parse parser cache keyed on a lossy projection of the configuration, e.g. repr(config), is "
         "state outliving a parse and is decided by C15, not here); "
+        "full equivalence of read_topmatter's end-of-block test with the markdown-it front_matter scanner (marker length, trailing text: only the ten probe lines of R12 are decided); "
+        "which other third-party callers re-enter the parser for a part of a document (only Sphinx's i18n transform is tabled in R13); whether code that reads the validated "
+        "GLOBAL config (env.myst_config) at builder level should have used a per-document value (only raw conf reads are decided, R11); "
         "normal-form equality of arbitrary value spellings; value ranges beyond what validators state; the bodies of the custom check_* validators against their "
         "annotations (only R2/R7/R8 shape facts); the docutils option-string converters beyond their comma splitting (R9): e.g. whether a textual shortcut in _validate_url_schemes still "
         "recognises every YAML mapping spelling - a fact about a string predicate versus YAML's grammar, value semantics; int/bool/YAML conversion of setting strings; whether a guard that skips the dict merge "
@@ -82,6 +92,7 @@ META = {
         "docutils/frontend.py as installed (validate_comma_separated_list is the splitting oracle of R9)",
         "dataclasses semantics: __post_init__ runs after __init__, dc.replace calls the constructor and passes field values by reference",
         "the Sphinx environment (and env.myst_config with it) is pickled between builds",
+        "mdit_py_plugins/front_matter/index.py and sphinx/transforms/i18n.py as installed (oracles of R12 / R13)",
     ],
     "assumptions": [
         "config values are JSON/YAML-typed (None, bool, int, float, str, list, dict) or Python objects given in conf.py",
@@ -1299,10 +1310,13 @@ def r3_no_raw_overwrite(corpus: Corpus, rep: Report, tier: str):
             else:
                 if discharged:
                     rep.ok("C13.R3", k, site, discharged)
-                elif any(fieldvar in _free_names(t) for t, _ in cfg.guards(sst)):
+                elif any(fieldvar in _free_names(t) and _metadata_flag(t, fieldvar) is None for t, _ in cfg.guards(sst)):
                     raise Unsupported(f"{site}: store guarded by a field-dependent condition that is not a metadata flag")
+                elif not [x for x in fields if field_is_coercing(corpus, x) and not any(fl is not None and not pol and fl in x.meta and not (isinstance(x.meta[fl], ast.Constant) and not x.meta[fl].value) for fl, pol in flags)]:
+                    rep.ok("C13.R3", k, site, "only reached for fields without the excluding metadata flags, none of which has a coercing validator")
                 else:
-                    co = [x.name for x in fields if field_is_coercing(corpus, x)]
+                    # fields excluded by a negative flag test (e.g. `if field.metadata.get("global_only"): continue`) never reach the store
+                    co = [x.name for x in fields if field_is_coercing(corpus, x) and not any(fl is not None and not pol and fl in x.meta and not (isinstance(x.meta[fl], ast.Constant) and not x.meta[fl].value) for fl, pol in flags)]
                     rep.violation(
                         "C13.R3",
                         k,
@@ -2101,6 +2115,294 @@ def r9_comma_lists_split_like_docutils(corpus: Corpus, rep: Report, tier: str):
 
 
 # ---------------------------------------------------------------------------
+# R11 per-document options are not read from the raw conf.py value
+
+
+def _raw_conf_reads(f: FunctionInfo) -> list[tuple[ast.AST, str | None]]:
+    """(node, field name | None when computed) for reads of ``<x>.config.myst_<field>`` / ``<x>.config["myst_<field>"]``
+    / ``getattr(<x>.config, "myst_<field>")`` - the un-validated, project wide Sphinx conf value."""
+
+    def is_conf(e: ast.AST) -> bool:
+        return (isinstance(e, ast.Attribute) and e.attr == "config") or (isinstance(e, ast.Name) and e.id == "config" and "config" not in _cfg_names(f, {}))
+
+    out = []
+    for n in f.local_nodes():
+        if isinstance(n, ast.Attribute) and n.attr.startswith("myst_") and n.attr != "myst_config" and is_conf(n.value) and isinstance(n.ctx, ast.Load):
+            out.append((n, n.attr[5:]))
+        elif isinstance(n, ast.Subscript) and is_conf(n.value) and isinstance(n.ctx, ast.Load):
+            sl = n.slice
+            if isinstance(sl, ast.Constant) and isinstance(sl.value, str) and sl.value.startswith("myst_"):
+                out.append((n, sl.value[5:]))
+            elif isinstance(sl, ast.JoinedStr) and sl.values and isinstance(sl.values[0], ast.Constant) and str(sl.values[0].value).startswith("myst_"):
+                out.append((n, None))
+        elif isinstance(n, ast.Call) and dotted(n.func) == "getattr" and len(n.args) >= 2 and is_conf(n.args[0]) and isinstance(n.args[1], ast.Constant) and str(n.args[1].value).startswith("myst_"):
+            out.append((n, str(n.args[1].value)[5:]))
+    return out
+
+
+def _in_fallback_position(n: ast.AST) -> bool:
+    """``n`` is only used when a more specific lookup has no value: default of ``.get(k, n)`` / ``getattr(o, k, n)``,
+    last operand of ``or``, else-arm of a conditional expression."""
+    cur, p_ = n, parent(n)
+    while p_ is not None and not isinstance(p_, ast.stmt):
+        if isinstance(p_, ast.Call):
+            if isinstance(p_.func, ast.Attribute) and p_.func.attr in ("get", "pop", "setdefault") and len(p_.args) == 2 and p_.args[1] is cur:
+                return True
+            if dotted(p_.func) == "getattr" and len(p_.args) == 3 and p_.args[2] is cur:
+                return True
+            return False
+        if isinstance(p_, ast.BoolOp) and isinstance(p_.op, ast.Or) and p_.values[-1] is cur and len(p_.values) > 1:
+            return True
+        if isinstance(p_, ast.IfExp) and p_.orelse is cur:
+            return True
+        cur, p_ = p_, parent(p_)
+    return False
+
+
+@rule("C13.R11")
+def r11_no_raw_conf_reads(corpus: Corpus, rep: Report, tier: str):
+    rep.rule(
+        "C13.R11",
+        "an option that a document may override is never read from the raw conf.py value (app.config / env.config myst_*) outside the function that builds the validated "
+        "global config, except as the fallback of a per-document lookup: such a read ignores the front-matter value and bypasses validation",
+    )
+    fields = {f.name: f for f in config_fields(corpus)}
+    n = 0
+    for f in corpus.all_functions():
+        if f.is_lambda or f.module.name.endswith("._docs"):
+            continue
+        reads = _raw_conf_reads(f)
+        if not reads:
+            continue
+        builds = any(isinstance(c, ast.Call) and (dotted(c.func) or "").rsplit(".", 1)[-1] == CONFIG_CLS and any(kw.arg is None for kw in c.keywords) for c in f.local_nodes())
+        for node, fname in reads:
+            n += 1
+            k = f"{f.fq}|reads conf value myst_{fname or '<computed>'}"
+            site = f.module.site(node)
+            rep.saw_function(f.fq)
+            if builds:
+                rep.ok("C13.R11", k, site, "feeds the validating constructor of the global config")
+                continue
+            if fname is None:
+                raise Unsupported(f"{site}: computed myst_* conf read outside the config builder")
+            fld = fields.get(fname)
+            if fld is None:
+                rep.listed("C13.R11", k, site, "not a MdParserConfig field")
+            elif fld.meta.get("global_only") is not None and not (isinstance(fld.meta["global_only"], ast.Constant) and not fld.meta["global_only"].value):
+                rep.ok("C13.R11", k, site, "global_only option: there is no per-document value")
+            elif _in_fallback_position(node):
+                rep.ok("C13.R11", k, site, "only the fallback of a more specific (per-document) lookup")
+            else:
+                rep.violation(
+                    "C13.R11",
+                    k,
+                    site,
+                    f"{f.qualname} decides on the raw conf.py value `{short(node, 50)}`: `{fname}` can be set per document in the front matter (and is validated/normalised only in "
+                    "MdParserConfig), so a document that sets it in its front matter is treated differently from one built with the same value in conf.py",
+                )
+    rep.expect_min("C13.R11", 2, "the builder's f-string read and the resolver's fallback read on the pinned tree")
+
+
+# ---------------------------------------------------------------------------
+# R12 read_topmatter hands the front-matter block to YAML as markdown-it delimits it
+
+TOPMATTER_PROBES = [("---", True), (" ---", True), ("  ---", True), ("   ---", True), ("...", True), ("  ...", True), ("    ---", False), ("a: ---", False), ("- item", False), ("key: value", False)]
+
+
+def _eval_line_predicate(mod: Module, e: ast.expr, var: str, line: str):
+    """Abstractly evaluate a terminator test on a constant probe line (constants and str/re primitives only)."""
+    import re as _re
+
+    def val(x: ast.expr):
+        if isinstance(x, ast.Name) and x.id == var:
+            return line
+        if isinstance(x, ast.Constant):
+            return x.value
+        if isinstance(x, ast.Tuple):
+            return tuple(val(y) for y in x.elts)
+        if isinstance(x, ast.Name) and x.id in mod.const_nodes:
+            return val(mod.const_nodes[x.id])
+        if isinstance(x, ast.Call) and isinstance(x.func, ast.Attribute) and x.func.attr in ("lstrip", "rstrip", "strip", "startswith", "endswith", "expandtabs") and not x.keywords:
+            recv = val(x.func.value)
+            if not isinstance(recv, str):
+                raise Unsupported("receiver")
+            return getattr(recv, x.func.attr)(*[val(a) for a in x.args])
+        if isinstance(x, ast.Call) and (dotted(x.func) or "") in ("re.match", "re.fullmatch", "re.search") and len(x.args) == 2:
+            return getattr(_re, dotted(x.func).split(".")[1])(val(x.args[0]), val(x.args[1]))
+        if isinstance(x, ast.Call) and isinstance(x.func, ast.Attribute) and x.func.attr in ("match", "fullmatch", "search") and isinstance(x.func.value, ast.Name) and x.func.value.id in mod.const_nodes and len(x.args) == 1:
+            c = mod.const_nodes[x.func.value.id]
+            if isinstance(c, ast.Call) and dotted(c.func) == "re.compile" and c.args:
+                return getattr(_re.compile(*[val(a) for a in c.args]), x.func.attr)(val(x.args[0]))
+        if isinstance(x, ast.UnaryOp) and isinstance(x.op, ast.Not):
+            return not val(x.operand)
+        if isinstance(x, ast.Call) and dotted(x.func) == "len" and len(x.args) == 1:
+            return len(val(x.args[0]))
+        if isinstance(x, ast.BinOp) and isinstance(x.op, (ast.Add, ast.Sub)):
+            l, r = val(x.left), val(x.right)
+            return l + r if isinstance(x.op, ast.Add) else l - r
+        if isinstance(x, ast.Subscript) and isinstance(x.slice, ast.Slice) and all(b is None or isinstance(b, ast.Constant) for b in (x.slice.lower, x.slice.upper, x.slice.step)):
+            return val(x.value)[slice(*[None if b is None else b.value for b in (x.slice.lower, x.slice.upper, x.slice.step)])]
+        if isinstance(x, ast.Compare) and len(x.ops) == 1 and isinstance(x.ops[0], (ast.Lt, ast.LtE, ast.Gt, ast.GtE)):
+            l, r = val(x.left), val(x.comparators[0])
+            op = x.ops[0]
+            return l < r if isinstance(op, ast.Lt) else l <= r if isinstance(op, ast.LtE) else l > r if isinstance(op, ast.Gt) else l >= r
+        if isinstance(x, ast.BoolOp):
+            vs = [val(v) for v in x.values]
+            return all(vs) if isinstance(x.op, ast.And) else any(vs)
+        if isinstance(x, ast.Compare) and len(x.ops) == 1 and isinstance(x.ops[0], (ast.Eq, ast.NotEq, ast.In, ast.NotIn, ast.Is, ast.IsNot)):
+            l, r = val(x.left), val(x.comparators[0])
+            op = x.ops[0]
+            return l == r if isinstance(op, ast.Eq) else l != r if isinstance(op, ast.NotEq) else l in r if isinstance(op, ast.In) else l not in r if isinstance(op, ast.NotIn) else l is r if isinstance(op, ast.Is) else l is not r
+        raise Unsupported(f"terminator test not evaluable: {short(x, 50)}")
+
+    return bool(val(e))
+
+
+@rule("C13.R12")
+def r12_topmatter_block_as_markdown_delimits_it(corpus: Corpus, rep: Report, tier: str):
+    rep.rule(
+        "C13.R12",
+        "read_topmatter passes the front-matter lines to YAML verbatim (only the line terminator is removed) and ends the block where the markdown-it front_matter rule ends it "
+        "(closing marker indented by up to three spaces)",
+    )
+    rt = corpus.func(f"{MAIN}:read_topmatter")
+    mod = rt.module
+    # the loop that collects the block
+    loops = [n for n in rt.local_nodes() if isinstance(n, ast.For) and isinstance(n.target, ast.Name) and any(isinstance(x, ast.Break) for x in ast.walk(n))]
+    if len(loops) != 1:
+        raise Unsupported("read_topmatter: the loop collecting the front-matter lines was not found")
+    lp = loops[0]
+    var = lp.target.id
+    # (a) what is appended
+    adds = [c for c in ast.walk(lp) if isinstance(c, ast.Call) and isinstance(c.func, ast.Attribute) and c.func.attr in ("append", "write") and c.args and var in _free_names(c.args[0])]
+    if not adds:
+        raise Unsupported("read_topmatter: no append of the current line found")
+    for c in adds:
+        k = f"{rt.fq}|front-matter lines reach YAML verbatim"
+        bad = None
+        for x in ast.walk(c.args[0]):
+            if isinstance(x, ast.Call) and isinstance(x.func, ast.Attribute) and var in _free_names(x.func.value):
+                m = x.func.attr
+                if m in ("rstrip", "removesuffix") and len(x.args) == 1 and isinstance(x.args[0], ast.Constant) and isinstance(x.args[0].value, str) and set(x.args[0].value) <= set("\r\n"):
+                    continue
+                if m in ("splitlines", "format", "encode", "decode"):
+                    raise Unsupported(f"read_topmatter: line handling `{short(x, 40)}` not understood")
+                bad = x
+        if bad is not None:
+            rep.violation(
+                "C13.R12",
+                k,
+                mod.site(bad),
+                f"`{short(bad, 40)}` alters every front-matter line before YAML sees it: trailing spaces are significant inside multi-line scalars (a Markdown hard break in a "
+                "substitution), so the value applied differs from the same value set globally (and from what the renderer's own yaml.safe_load of the block yields)",
+            )
+        else:
+            rep.ok("C13.R12", k, mod.site(c), "only the line terminator is stripped")
+    # (b) where the block ends
+    brk = [n for n in ast.walk(lp) if isinstance(n, ast.If) and any(isinstance(x, ast.Break) for x in n.body) and var in _free_names(n.test)]
+    if len(brk) != 1:
+        raise Unsupported("read_topmatter: the test that ends the block was not found")
+    test = brk[0].test
+    try:
+        fm = corpus.sibling("mdit_py_plugins/front_matter/index.py")
+        rep.saw_sibling("mdit_py_plugins/front_matter/index.py")
+        rule_fn = fm.func("_front_matter_rule")
+        txt = unparse(rule_fn.node)
+        if "tShift[nextLine]" not in txt or "is_code_block(state, nextLine)" not in txt:
+            rep.error("C13.R12", "mdit_py_plugins front_matter rule no longer looks for the closing marker after the line's indentation (oracle changed)")
+    except AnchorMissing as e:
+        rep.error("C13.R12", f"sibling oracle missing: {e}")
+    k = f"{rt.fq}|block ends where the markdown-it front_matter rule ends it"
+    wrong = []
+    for probe, want in TOPMATTER_PROBES:
+        got = _eval_line_predicate(mod, test, var, probe)
+        if got != want:
+            wrong.append((probe, want))
+    if wrong:
+        probe, want = wrong[0]
+        rep.violation(
+            "C13.R12",
+            k,
+            mod.site(brk[0]),
+            f"the end-of-block test `{short(test, 60)}` {'does not stop' if want else 'stops'} at the line {probe!r}, but the markdown-it front_matter rule "
+            f"{'closes the block there (marker after up to three spaces of indentation)' if want else 'does not'}: the renderer and read_topmatter see different YAML, "
+            "so 'myst:' options of such a block are silently not applied",
+        )
+    else:
+        rep.ok("C13.R12", k, mod.site(brk[0]), f"{len(TOPMATTER_PROBES)} probe lines agree (indent 0-3 closes, 4 does not)")
+    rep.expect_min("C13.R12", 2, "the append and the terminator test of read_topmatter")
+
+
+# ---------------------------------------------------------------------------
+# R13 re-parses of a part of a document start from the document's file-level config
+
+
+@rule("C13.R13")
+def r13_reparse_uses_file_level_config(corpus: Corpus, rep: Report, tier: str):
+    rep.rule(
+        "C13.R13",
+        "Sphinx re-parses every translated message through MystParser.parse without front matter: the parser keeps the file-level config of the document being read "
+        "and starts from it for such sources",
+    )
+    try:
+        i18n = corpus.sibling("sphinx/transforms/i18n.py")
+        rep.saw_sibling("sphinx/transforms/i18n.py")
+    except AnchorMissing:
+        rep.listed("C13.R13", "sphinx i18n transform", "sphinx/transforms/i18n.py", "sibling source not installed: rule not applicable")
+        rep.expect_min("C13.R13", 0, "")
+        return
+    if ":<translated>" not in i18n.src or "publish_msgstr" not in i18n.src:
+        rep.listed("C13.R13", "sphinx i18n transform", "sphinx/transforms/i18n.py", "this Sphinx does not re-parse messages under a '<translated>' source: rule not applicable")
+        return
+    f = corpus.func("parsers.sphinx_:MystParser.parse")
+    mod = f.module
+    k = f"{f.fq}|translated messages start from the file-level config"
+    # the config that reaches create_md_parser
+    mk = [c for c in f.local_nodes() if isinstance(c, ast.Call) and (dotted(c.func) or "").rsplit(".", 1)[-1] == "create_md_parser" and c.args and isinstance(c.args[0], ast.Name)]
+    if not mk:
+        raise Unsupported("MystParser.parse: create_md_parser(<config>, ...) not found")
+    cvar = mk[0].args[0].id
+
+    def per_doc_store(e: ast.AST) -> str | None:
+        """Key text when ``e`` is a per-read store of the environment: env.temp_data[...] / .get(...)."""
+        if isinstance(e, ast.Subscript) and isinstance(e.value, ast.Attribute) and e.value.attr in ("temp_data", "current_document") and isinstance(e.slice, ast.Constant):
+            return f"{e.value.attr}[{e.slice.value!r}]"
+        if isinstance(e, ast.Call) and isinstance(e.func, ast.Attribute) and e.func.attr in ("get", "pop") and isinstance(e.func.value, ast.Attribute) and e.func.value.attr in ("temp_data", "current_document") and e.args and isinstance(e.args[0], ast.Constant):
+            return f"{e.func.value.attr}[{e.args[0].value!r}]"
+        return None
+
+    writes = {per_doc_store(t): n for n in f.local_nodes() if isinstance(n, ast.Assign) for t in n.targets if per_doc_store(t) and isinstance(n.value, ast.Name) and n.value.id == cvar}
+    reads = {per_doc_store(n.value): n for n in f.local_nodes() if isinstance(n, ast.Assign) and any(isinstance(t, ast.Name) and t.id == cvar for t in n.targets) and per_doc_store(n.value)}
+    common = set(writes) & set(reads)
+    if not common:
+        rep.violation(
+            "C13.R13",
+            k,
+            f.site(),
+            f"MystParser.parse neither keeps the merged file-level config (`{cvar}`) in the per-read store of the environment nor starts from it: Sphinx's i18n transform "
+            "re-parses each msgstr as a stand-alone '<translated>' source without front matter, so translated paragraphs are parsed with the global configuration only "
+            "(extensions/substitutions enabled in the document's front matter are not applied to them)",
+        )
+        return
+    key = sorted(common)[0]
+    cfg = get_cfg(f)
+    rd, wr = reads[key], writes[key]
+    gr = [unparse(t) for t, p in cfg.guards(rd)]
+    # the stored value must be the merged one: the write comes after the merge
+    merges = [n for n in f.local_nodes() if isinstance(n, ast.Assign) and isinstance(n.value, ast.Call) and (dotted(n.value.func) or "").rsplit(".", 1)[-1] in ("merge_file_level", "merge_source_level")]
+    late = all(cfg.paths_avoiding(m_, wr, lambda n: False) for m_ in merges) if merges else False
+    if not merges:
+        raise Unsupported("MystParser.parse: no merge_file_level call found")
+    if not late:
+        rep.violation("C13.R13", k, mod.site(wr), f"`{short(wr, 50)}` stores the config before the front matter is merged into it")
+    elif not any("translated" in g for g in gr) and not gr:
+        rep.violation("C13.R13", k, mod.site(rd), f"`{short(rd, 60)}` replaces the starting config for every parse, not only for re-parsed messages")
+    else:
+        rep.ok("C13.R13", k, mod.site(rd), f"{key}: written after the merge, read back for re-parsed messages")
+    rep.expect_min("C13.R13", 1, "MystParser.parse")
+
+
+# ---------------------------------------------------------------------------
 # R4 who may write a config object
 
 MUTATORS = {
@@ -2138,9 +2440,26 @@ def _cfg_names(f: FunctionInfo, validators: dict[str, FunctionInfo]) -> set[str]
                 tgt, val = n.target.id, n.value
             else:
                 continue
-            if _is_cfg(val, names) or (isinstance(val, ast.Call) and ((dotted(val.func) or "").rsplit(".", 1)[-1] in factories or (isinstance(val.func, ast.Attribute) and val.func.attr == "copy" and _is_cfg(val.func.value, names)))):
+            if _is_cfg(val, names) or (isinstance(val, ast.Call) and (_factory_call(f, val, factories, names) or (isinstance(val.func, ast.Attribute) and val.func.attr == "copy" and _is_cfg(val.func.value, names)))):
                 names.add(tgt)
     return names
+
+
+def _factory_call(f: FunctionInfo, call: ast.Call, factories: set[str], names: set[str]) -> bool:
+    """``call`` goes to a function/method known to return a config object.  A method name only counts on a receiver
+    that can own it: a config object, ``self``/``cls`` or an imported module (``x.__dict__.copy()`` is not MdParserConfig.copy)."""
+    fn = call.func
+    if isinstance(fn, ast.Name):
+        return fn.id in factories
+    if isinstance(fn, ast.Attribute) and fn.attr in factories:
+        recv = fn.value
+        if _is_cfg(recv, names):
+            return True
+        if isinstance(recv, ast.Name) and (recv.id in ("self", "cls") or recv.id in f.module.imports or recv.id == CONFIG_CLS):
+            return fn.attr != "copy" or recv.id == CONFIG_CLS
+        d = dotted(recv)
+        return bool(d) and d.split(".")[0] in f.module.imports
+    return False
 
 
 def _is_cfg(e: ast.AST, names: set[str]) -> bool:
@@ -2834,7 +3153,7 @@ def r6_entry_points_funnel(corpus: Corpus, rep: Report, tier: str):
     rep.expect_min("C13.R6", 9, "post_init, validate_fields, validate_field, copy, 2x constructor, 2x handler, 2x omit filter")
 
 
-RULES = [r1_validator_types, r2_commit_after_validate, r3_no_raw_overwrite, r4_config_writers, r5_invalid_value_path, r6_entry_points_funnel, r7_short_circuit_consistency, r8_truthiness_for_none, r9_comma_lists_split_like_docutils, r10_str_is_not_a_container_of_str]
+RULES = [r1_validator_types, r2_commit_after_validate, r3_no_raw_overwrite, r4_config_writers, r5_invalid_value_path, r6_entry_points_funnel, r7_short_circuit_consistency, r8_truthiness_for_none, r9_comma_lists_split_like_docutils, r10_str_is_not_a_container_of_str, r11_no_raw_conf_reads, r12_topmatter_block_as_markdown_delimits_it, r13_reparse_uses_file_level_config]
 
 
 # ---------------------------------------------------------------------------
@@ -3216,4 +3535,49 @@ def mutants(corpus: Corpus):
     if first is not None:
         ind = _indent(dv, first)
         out.append(Mutant("c13-validate-field-skips-none-values", "C13.R6", dv.rel, splice(dv.src, first, f"if {f.params[2]} is None:\n{ind}    return\n{ind}{_seg(dv, first)}"), expect="validate_field"))
+    # ---- round 10: revert mutants of the landed repairs + their classes
+    # 8a4bc4b / 1d4c211: read_topmatter
+    rt = main.func("read_topmatter")
+    lp = find_node(rt, lambda n: isinstance(n, ast.For) and any(isinstance(x, ast.Break) for x in ast.walk(n)))
+    if lp is not None and isinstance(lp.target, ast.Name):
+        var = lp.target.id
+        rs = find_node(rt, lambda n: isinstance(n, ast.Call) and isinstance(n.func, ast.Attribute) and n.func.attr == "rstrip" and unparse(n.func.value) == var and len(n.args) == 1)
+        if rs is not None:
+            out.append(Mutant("c13-8a4bc4b-reverted-topmatter-lines-rstripped", "C13.R12", main.rel, splice(main.src, rs, f"{var}.rstrip()"), expect="verbatim"))
+            out.append(Mutant("c13-topmatter-lines-stripped-both-sides", "C13.R12", main.rel, splice(main.src, rs, f"{var}.strip()"), expect="verbatim"))
+        br = find_node(rt, lambda n: isinstance(n, ast.If) and any(isinstance(x, ast.Break) for x in n.body) and var in _free_names(n.test))
+        if br is not None:
+            out.append(Mutant("c13-1d4c211-reverted-closing-marker-at-column-0-only", "C13.R12", main.rel, splice(main.src, br.test, f'{var}.startswith(("---", "..."))'), expect="block ends where"))
+            out.append(Mutant("c13-closing-marker-after-any-indentation", "C13.R12", main.rel, splice(main.src, br.test, f'{var}.lstrip().startswith(("---", "..."))'), expect="block ends where"))
+    # ca0fdd5: translated messages
+    sp = corpus.mod("parsers.sphinx_")
+    f = sp.func("MystParser.parse")
+    rd = find_node(f, lambda n: isinstance(n, ast.Assign) and isinstance(n.value, ast.Call) and isinstance(n.value.func, ast.Attribute) and n.value.func.attr == "get" and "temp_data" in unparse(n.value.func.value))
+    wr = find_node(f, lambda n: isinstance(n, ast.Assign) and isinstance(n.targets[0], ast.Subscript) and "temp_data" in unparse(n.targets[0]))
+    if rd is not None:
+        out.append(Mutant("c13-ca0fdd5-reverted-translated-messages-use-global-config", "C13.R13", sp.rel, splice(sp.src, rd, "pass"), expect="translated"))
+    if wr is not None:
+        out.append(Mutant("c13-file-level-config-never-stored-for-reparses", "C13.R13", sp.rel, splice(sp.src, wr, "pass"), expect="translated"))
+    # d5e2ee9 / 72e3628: raw conf reads
+    mr = corpus.mod("sphinx_ext.myst_refs")
+    f = mr.func("MystReferenceResolver.run")
+    rawr = next((nd for nd, nm in _raw_conf_reads(f) if nm == "ref_domains"), None)
+    if rawr is not None:
+        top = rawr
+        while isinstance(parent(top), (ast.Call, ast.Attribute)) and not isinstance(parent(top), ast.stmt):
+            top = parent(top)
+        if top is not rawr:
+            out.append(Mutant("c13-d5e2ee9-reverted-resolver-reads-conf-ref-domains-only", "C13.R11", mr.rel, splice(mr.src, top, _seg(mr, rawr)), expect="ref_domains"))
+    mj = corpus.mod("sphinx_ext.mathjax")
+    f = mj.func("override_mathjax")
+    first = next((st for st in f.node.body if not (isinstance(st, ast.Expr) and isinstance(st.value, ast.Constant))), None)
+    if first is not None:
+        ind = _indent(mj, first)
+        out.append(Mutant("c13-72e3628-reverted-mathjax-override-tied-to-conf-extensions", "C13.R11", mj.rel, splice(mj.src, first, f'if "dollarmath" not in app.config["myst_enable_extensions"]:\n{ind}    return\n{ind}{_seg(mj, first)}'), expect="enable_extensions"))
+    bm = corpus.mod("mdit_to_docutils.base")
+    f = bm.func("DocutilsRenderer._render_finalise")
+    first = next((st for st in f.node.body if not (isinstance(st, ast.Expr) and isinstance(st.value, ast.Constant))), None)
+    if first is not None:
+        ind = _indent(bm, first)
+        out.append(Mutant("c13-renderer-reads-conf-heading-anchors", "C13.R11", bm.rel, splice(bm.src, first, f'if self.sphinx_env is not None and self.sphinx_env.config.myst_heading_anchors == 0:\n{ind}    self._heading_slugs.clear()\n{ind}{_seg(bm, first)}'), expect="heading_anchors"))
     return out
